@@ -1,9 +1,15 @@
 package metadata
 
-import "github.com/multiformats/go-multicodec"
+import (
+	"github.com/multiformats/go-multicodec"
+	"github.com/multiformats/go-varint"
+)
 
 func HTTPV1() Protocol {
+	// The payload of an Unknown protocol is its whole encoding: code, payload size, payload.
+	code := multicodec.Http
 	return &Unknown{
-		Code: multicodec.Http,
+		Code:    code,
+		Payload: append(varint.ToUvarint(uint64(code)), varint.ToUvarint(0)...),
 	}
 }
